@@ -292,6 +292,11 @@ func (a *actorRun) stepOne(tie bool) {
 			}
 		}
 	}
+	if ev == hsms.VerifEvDisconnect && after != nc {
+		a.fail("DISCONNECT_LOST", "step(evDisconnect) left the register at %v: the link is gone (the transport reported it), a commit that landed inside the step cannot keep the session alive — nothing will ever tear this generation down", after)
+
+		return
+	}
 	if (ev == hsms.VerifEvDisconnect || ev == hsms.VerifEvT7Timeout || ev == hsms.VerifEvClose) && after == nc && stepFrom != nc {
 		a.genLive = false
 		a.t7Armed = false
